@@ -688,7 +688,7 @@ PROPS = {
     'C12': dict(lean_modules=['SfxProps.C12', 'SfxProps.C12Tan', 'SfxProps.C12Pairs'], bins=['math'], profiles=['chk', 'rel'], gen=gen_C12),
     'C13': dict(lean_modules=['SfxProps.C13', 'SfxProps.C13Real'], bins=['math'], profiles=['rel'], gen=gen_C13, oracle=True),
     'C14': dict(lean_modules=['SfxProps.C14'], bins=['math'], profiles=['rel'], gen=gen_C14, oracle=True),
-    'C15': dict(lean_modules=['SfxProps.C15', 'SfxProps.C15Acc'], bins=['math'], profiles=['rel'], gen=gen_C15, oracle=True),
+    'C15': dict(lean_modules=['SfxProps.C15', 'SfxProps.C15Acc', 'SfxProps.C15Pairs'], bins=['math'], profiles=['rel'], gen=gen_C15, oracle=True),
     'C16': dict(lean_modules=['SfxProps.C16', 'SfxProps.C16Acc'], bins=['math'], profiles=['rel'], gen=gen_C16, oracle=True),
     'C17': dict(lean_modules=['SfxProps.C17'], bins=['math'], profiles=['rel'], gen=gen_C17),
     'C08': dict(lean_modules=['SfxProps.C08', 'SfxProps.C08Holds'], bins=['text'], profiles=['chk', 'rel'], gen=gen_C08),
